@@ -1,31 +1,34 @@
 #!/bin/bash
-# usage: tools/verify_seed.sh <ID>   - re-confirms the planted changes a sub-agent left in /tmp/seed/<ID>/seeded/{a,b}
+# usage: tools/verify_seed.sh <ID> [root=/tmp/seed] [names="a b"] - re-confirms the planted changes a sub-agent left in
+# <root>/<ID>/seeded/{a,b}; with names "c d" they are stored as /verif/seeded/<ID>/c and /d (second batch)
 # in that scratch worktree: demo passes on the clean tree, patch applies, test suite passes with it, demo fails with it.
 # Confirmed changes are copied to /verif/seeded/<ID>/<x>/ (meta.json gets a "confirmed" record).
-ID=$1; W=/tmp/seed/$ID; PP="PYTHONPATH=$W/src:$W"
+ID=$1; ROOT=${2:-/tmp/seed}; NAMES=(${3:-a b}); W=$ROOT/$ID; PP="PYTHONPATH=$W/src:$W"
 cd $W || exit 2
 git checkout -q -- . 2>/dev/null
+k=-1
 for x in a b; do
+  k=$((k+1)); y=${NAMES[$k]}
   S=$W/seeded/$x
   [ -f $S/patch.diff ] || { echo "$ID/$x: no patch"; continue; }
-  env $PP timeout 300 /venv/bin/python $S/demo.py >/tmp/seed/$ID.$x.clean.log 2>&1; clean=$?
+  env $PP timeout 300 /venv/bin/python $S/demo.py >$ROOT/$ID.$x.clean.log 2>&1; clean=$?
   git apply --check $S/patch.diff 2>/dev/null || { echo "$ID/$x: patch does not apply"; continue; }
   git apply $S/patch.diff
-  env $PP timeout 300 /venv/bin/python $S/demo.py >/tmp/seed/$ID.$x.patched.log 2>&1; patched=$?
+  env $PP timeout 300 /venv/bin/python $S/demo.py >$ROOT/$ID.$x.patched.log 2>&1; patched=$?
   tests=$(env $PP timeout 900 /venv/bin/python -m pytest -q -p no:cacheprovider --deselect test/test_eql/test_rendering.py 2>&1 | tail -1)
   git checkout -q -- .
   echo "$ID/$x: demo clean exit=$clean, demo patched exit=$patched, tests with patch: $tests"
   if [ $clean -eq 0 ] && [ $patched -ne 0 ] && echo "$tests" | grep -q "132 passed" && ! echo "$tests" | grep -q "failed"; then
-    mkdir -p /verif/seeded/$ID/$x
-    cp $S/patch.diff $S/demo.py /verif/seeded/$ID/$x/
-    python3 - "$S/meta.json" "/verif/seeded/$ID/$x/meta.json" "$tests" <<'PY'
+    mkdir -p /verif/seeded/$ID/$y
+    cp $S/patch.diff $S/demo.py /verif/seeded/$ID/$y/
+    python3 - "$S/meta.json" "/verif/seeded/$ID/$y/meta.json" "$tests" <<'PY'
 import json,sys
 m=json.load(open(sys.argv[1]))
 m["confirmed"]={"demo_on_clean_tree":"exit 0","demo_with_patch":"non-zero exit","test_suite_with_patch":sys.argv[3],
  "how":"tools/verify_seed.sh in the scratch worktree /tmp/seed/<ID>: demo.py on the clean tree, git apply patch.diff, demo.py again, full pytest run (rendering tests deselected as in the baseline), git checkout"}
 json.dump(m,open(sys.argv[2],"w"),indent=1)
 PY
-    echo "   kept -> /verif/seeded/$ID/$x"
+    echo "   kept -> /verif/seeded/$ID/$y"
   else
     echo "   NOT kept"
   fi
